@@ -17,6 +17,9 @@ Definition unrevoke_all (idxs s : list N) : list N := fold_left (fun a i => del 
 Fixpoint sorted (s : list N) : bool :=
   match s with x :: ((y :: _) as r) => (x <? y) && sorted r | _ => true end.
 
+(* what a bitmap can hold: strictly increasing 32-bit indices *)
+Definition valid_set (s : list N) : Prop := sorted s = true /\ Forall (fun x => x < 4294967296) s.
+
 (* standard alphabet *)
 Definition b64s_char (s : N) : N :=
   if s <? 26 then 65 + s else if s <? 52 then 71 + s else if s <? 62 then s - 4 else if s =? 62 then 43 else 47.
